@@ -226,6 +226,7 @@ def main():
         sys.exit(2)
     pid = sys.argv[1]
     t0 = time.time()
+    phases = {}
     cfg = load_cfg(pid)
     replay_path = None
     if sys.argv[2] == "--replay":
@@ -257,6 +258,7 @@ def main():
         okh, outh = build_harness()
         if not okh:
             broken.append(("harness-build", "go build -tags verif (tie to /repo broken)", outh[-2000:]))
+    phases['build'] = round(time.time() - t0, 1)
     okp, thms, closed, assum, praw = (False, [], 0, [], "")
     if not any(b[0] == "proof" for b in broken):
         okp, thms, closed, assum, praw = check_props_file(pid, outdir)
@@ -287,6 +289,7 @@ def main():
                     print("case input:", json.dumps(r)[:3000])
         sys.exit(0)
 
+    phases['props'] = round(time.time() - t0, 1)
     # --- 2. implementation run + model evaluation + oracle ---
     stats, results, fails, corr_mismatch, eval_errors = {}, {}, [], [], []
     if not any(b[0] == "harness-build" for b in broken):
@@ -297,6 +300,7 @@ def main():
         if rc != 0:
             broken.append(("harness-run", "vharness %s exited %d" % (pid, rc), hout[-2000:]))
         fails = read_jsonl(os.path.join(outdir, "oracle.jsonl"))
+        phases['harness'] = round(time.time() - t0, 1)
         if not any(b[0] == "proof" for b in broken):
             results, eval_errors, nshards = eval_shards(outdir)
             for s, e in eval_errors:
@@ -304,6 +308,7 @@ def main():
             corr_mismatch = sorted(i for i, (ok_, _) in results.items() if not ok_)
             if stats and len(results) != stats.get("cases", 0) and not eval_errors:
                 broken.append(("correspondence", "model evaluated %d of %d cases" % (len(results), stats.get("cases", 0)), ""))
+    phases['eval'] = round(time.time() - t0, 1)
     impl_recs = {}
     ip = os.path.join(outdir, "impl.jsonl")
     if os.path.exists(ip):
@@ -398,6 +403,7 @@ def main():
         "extra": stats.get("extra", {}),
         "search_oracle_evaluations": searched,
         "exhaustive": False,
+        "phase_end_s": phases,
     }
     ev = {"property_id": pid, "tier": tier, "seed": seed, "level": "proof", "coverage": cov,
           "assumptions": cfg.get("assumptions", []), "wall_s": round(wall, 2), "violations": violations}
